@@ -101,7 +101,25 @@ def _constraint(maker, keep_without_t=False):
     return f
 
 
+def _resource_rule(maker):
+    """T, O and a third task O2 share worker W; a resource constraint is declared on W"""
+    def f(P, t, o):
+        w = ps.Worker(name="W")
+        o2 = make_task(P, "O2", "fixed")
+        for x in (t, o, o2):
+            if x is not None:
+                x.obj.add_required_resource(w)
+        maker(P, w)
+        return {"workers": [w]}
+    return f
+
+
 CONTEXTS = {
+    "tasks_distance_exact": _resource_rule(lambda P, w: ps.ResourceTasksDistance(resource=w, distance=P.int("r_dist", ph=2), mode="exact")),
+    "tasks_distance_min": _resource_rule(lambda P, w: ps.ResourceTasksDistance(resource=w, distance=P.int("r_dist", ph=2), mode="min")),
+    "non_delay": _resource_rule(lambda P, w: ps.ResourceNonDelay(resource=w)),
+    "unavailable": _resource_rule(lambda P, w: ps.ResourceUnavailable(resource=w, list_of_time_intervals=[(P.int("r_lo", ph=3), P.int("r_hi", ph=5))])),
+    "workload": _resource_rule(lambda P, w: ps.WorkLoad(resource=w, dict_time_intervals_and_bound={(P.int("r_lo", ph=0), P.int("r_hi", ph=9)): P.int("r_b", ph=4)}, kind="max")),
     "plain": ctx_plain,
     "release_due": ctx_release_due,
     "worker": ctx_worker,
@@ -156,11 +174,12 @@ def deletion_shape(kname, context):
         s2 = ps.SchedulingSolver(problem=pb2)
         s2.initialize()
         phi2 = list(s2._solver.assertions())
+        with_second["solver2"] = s2
         pb, hv = new_problem(P, True, name="with")
         t = _make_t(P, kname, context)
         o = _make_o(P, context)
         extra = CONTEXTS[context](P, t, o) or {}
-        return Ctx(problem=pb, t=t, o=o, phi2=phi2, horizon=hv, extra=extra)
+        return Ctx(problem=pb, t=t, o=o, phi2=phi2, horizon=hv, extra=extra, solver2=with_second["solver2"])
 
     def obligations(ctx):
         t = ctx.t
@@ -175,10 +194,10 @@ def deletion_shape(kname, context):
         obs = [
             # every schedule of the others while T is unscheduled is a schedule of the problem without T
             Ob(f"{PROP}/{name}/unscheduled_task_adds_no_freedom", "complete", valid=And(phi1) if not tr else And(tr(phi1)),
-               observables=shared, phi=ctx.phi2, transform=tr),
+               observables=shared, phi=ctx.phi2, transform=tr, replayer="checks.c06:replay_deletion", extra={"lost_in": "without"}),
             # every schedule of the problem without T is still available when T is left unscheduled
             Ob(f"{PROP}/{name}/unscheduled_task_removes_no_schedule", "complete", valid=And(ctx.phi2) if not tr else And(tr(list(ctx.phi2))),
-               observables=shared, phi=phi1, transform=tr),
+               observables=shared, phi=phi1, transform=tr, replayer="checks.c06:replay_deletion", extra={"lost_in": "with"}),
         ]
         # (b) nothing is reported for the unscheduled task
         for w in ctx.extra.get("workers", []):
@@ -189,7 +208,48 @@ def deletion_shape(kname, context):
 
     sh = Shape(name, build, obligations)
     sh.grid_limit = 3
+    # interval parameters of the embedding constraints are well-formed and non-negative
+    sh.assumptions = lambda P: ([P.v("r_lo") >= 0, P.v("r_lo") < P.v("r_hi")] if "r_lo" in P.terms else []) + \
+                               ([P.v("c_lo") >= 0, P.v("c_lo") < P.v("c_hi")] if "c_lo" in P.terms else [])
     return sh
+
+
+def replay_deletion(desc):
+    """Replay of a deletion-equivalence counterexample, unpatched: the witness fixes the shared
+    observables; the real solver must accept them in one problem and reject them in the other."""
+    import symx.harness as H
+    from symx import engine
+
+    shape = H.get_shape(desc["module"], desc["shape"])
+    w = desc["witness"]
+    P = engine.Params("conc", values=w["params"])
+    with quiet():
+        ctx = shape.build(P)  # builds 'without' (solver2 initialised) then 'with' (active problem)
+        pins = []
+        for n, v in w["pins"].items():
+            if "!" in n:
+                continue
+            pins.append(z3.Bool(n) == z3.BoolVal(v) if isinstance(v, bool) else z3.Int(n) == v)
+        s2 = ctx.solver2
+        for e in pins:
+            s2.append_z3_assertion(e)
+        r_without = s2.solve()
+        for i, e in enumerate(pins):
+            ps.ConstraintFromExpression(name=f"__pin_{i}", expression=e)
+        ps.OptionalTaskForceSchedule(name="__leave_T_out", task=ctx.t.obj, to_be_scheduled=False)
+        s1 = ps.SchedulingSolver(problem=ctx.problem)
+        r_with = s1.solve()
+    engine.reset_z3_globals()
+    print(f"replay: pinned schedule {w['pins']}: problem without T -> {'solution' if r_without else r_without}; "
+          f"problem with T left unscheduled -> {'solution' if r_with else r_with}")
+    lost_in = desc["extra"]["lost_in"]
+    if lost_in == "with" and r_without and r_with is False:
+        print("CONFIRMED: a schedule of the problem without T is lost when T is declared and left unscheduled")
+        return 1
+    if lost_in == "without" and r_with and r_without is False:
+        print("CONFIRMED: leaving T unscheduled admits a schedule that the problem without T rejects")
+        return 1
+    return 0
 
 
 # ---- (a) scheduled optional task obeys every timing rule ------------------------------------------
